@@ -22,14 +22,14 @@ theorem inlineUncompute_some (rets : List String) (r : String) :
 theorem retLoop {N : Nat} {Gk : List AGate} {σk : FState} {rets : List String} :
     ∀ (defs : List (String × BExp)) (scope : List String) (env : List (String × Bool)) {u : Unit} {s s' : CState},
     (compileDefs (some rets) true defs).run s = .ok (u, s') → RP N Gk σk rets scope (envOf env) σ0 s →
-    genDefs scope defs = true → freshDefs scope defs = true → retDefs rets defs = true →
+    genDefs scope defs = true → retDefs rets scope defs = true →
     ∃ scope', RP N Gk σk rets scope' (envOf (evalDefs defs env)) σ0 s' ∧ (∀ n ∈ scope, n ∈ scope') ∧
       (∀ p ∈ defs, p.1 ∈ scope')
-  | [], scope, env, u, s, s', h, rp, _, _, _ => by
+  | [], scope, env, u, s, s', h, rp, _, _ => by
     unfold compileDefs at h
     obtain ⟨_, rfl⟩ := run_pure_ok.mp h
     exact ⟨scope, rp, fun n hn => hn, fun p hp => absurd hp List.not_mem_nil⟩
-  | (r, e) :: rest, scope, env, u, s, s', h, rp, hgen, hfr, hrd => by
+  | (r, e) :: rest, scope, env, u, s, s', h, rp, hgen, hrd => by
     unfold compileDefs at h
     obtain ⟨iret, t1, he, k1⟩ := run_bind_ok.mp h
     obtain ⟨u3, t1', hrs, k1'⟩ := run_bind_ok.mp k1
@@ -37,10 +37,9 @@ theorem retLoop {N : Nat} {Gk : List AGate} {σk : FState} {rets : List String} 
     obtain ⟨u5, t3, hmap, k3⟩ := run_bind_ok.mp k2
     simp only [genDefs, Bool.and_eq_true, Bool.not_eq_true'] at hgen
     obtain ⟨⟨⟨hres, hwf⟩, hsn⟩, hrest⟩ := hgen
-    simp only [freshDefs, Bool.and_eq_true, Bool.not_eq_true', List.contains_eq_mem, decide_eq_false_iff_not] at hfr
-    obtain ⟨⟨hnew, hnc⟩, hfrest⟩ := hfr
-    simp only [retDefs, Bool.and_eq_true, List.contains_eq_mem, decide_eq_true_eq] at hrd
-    obtain ⟨hr, hrdrest⟩ := hrd
+    simp only [retDefs, retExprOK, Bool.and_eq_true, List.contains_eq_mem, decide_eq_true_eq, Bool.not_eq_true',
+      decide_eq_false_iff_not] at hrd
+    obtain ⟨⟨⟨hr, hnew⟩, hnc⟩, hrdrest⟩ := hrd
     have tp0 := topExpr_g he rp.bi hwf hsn
     have tp : TopG scope (envOf env) σ0 r (e.eval (envOf env)) false s t1 iret := hnc ▸ tp0
     have hd := stmt_headG tp.gi.good (notAvail_lt tp.nav) hrs hset hmap
@@ -57,7 +56,7 @@ theorem retLoop {N : Nat} {Gk : List AGate} {σk : FState} {rets : List String} 
       have bi' := rp.bi.step tp hd hend (fun m hm => ⟨(tp.gi.marks m hm).1, fun e' => tp.nm (e' ▸ hm)⟩) hbind hres
       have rp' := rp_step rp tp hd hunc hrm hr hnew hstep bi'
       obtain ⟨scope', hfin, hsub, hmem⟩ := retLoop rest (scope ++ [r]) ((r, e.eval (envOf env)) :: env) k6 rp'
-        hrest hfrest hrdrest
+        hrest hrdrest
       refine ⟨scope', hfin, fun n hn => hsub n (List.mem_append_left _ hn), fun p hp => ?_⟩
       rcases List.mem_cons.mp hp with rfl | hp
       · exact hsub _ (by simp)
@@ -92,18 +91,18 @@ theorem KP.fin {nIn : Nat} {scope : List String} {s : CState} (kp : KP nIn scope
 theorem keptLoop {nIn : Nat} {rets : List String} :
     ∀ (defs : List (String × BExp)) (scope : List String) (env : List (String × Bool)) {u : Unit} {s s' : CState},
     (compileDefs (some rets) true defs).run s = .ok (u, s') → KP nIn scope (envOf env) σ0 s →
-    genDefs scope defs = true → freshDefs scope defs = true → keptThenRet rets defs = true →
+    genDefs scope defs = true → keptThenRet rets scope defs = true →
     ∃ N Gk σk scope', RP N Gk σk rets scope' (envOf (evalDefs defs env)) σ0 s' ∧ KFin nIn N Gk σk σ0 ∧
       (∀ n ∈ scope, n ∈ scope') ∧ (∀ p ∈ defs, p.1 ∈ scope')
-  | [], scope, env, u, s, s', h, kp, _, _, _ => by
+  | [], scope, env, u, s, s', h, kp, _, _ => by
     unfold compileDefs at h
     obtain ⟨_, rfl⟩ := run_pure_ok.mp h
     exact ⟨_, _, _, scope, kp.toRP, kp.fin, fun n hn => hn, fun p hp => absurd hp List.not_mem_nil⟩
-  | (r, e) :: rest, scope, env, u, s, s', h, kp, hgen, hfr, hkr => by
+  | (r, e) :: rest, scope, env, u, s, s', h, kp, hgen, hkr => by
     by_cases hrr : rets.contains r = true
     · -- the return phase starts here
       simp only [keptThenRet, hrr, if_true] at hkr
-      obtain ⟨scope', hfin, hsub, hmem⟩ := retLoop ((r, e) :: rest) scope env h (kp.toRP (rets := rets)) hgen hfr hkr
+      obtain ⟨scope', hfin, hsub, hmem⟩ := retLoop ((r, e) :: rest) scope env h (kp.toRP (rets := rets)) hgen hkr
       exact ⟨_, _, _, scope', hfin, kp.fin, hsub, hmem⟩
     · simp only [keptThenRet, hrr, Bool.false_eq_true, if_false] at hkr
       unfold compileDefs at h
@@ -113,8 +112,6 @@ theorem keptLoop {nIn : Nat} {rets : List String} :
       obtain ⟨u5, t3, hmap, k3⟩ := run_bind_ok.mp k2
       simp only [genDefs, Bool.and_eq_true, Bool.not_eq_true'] at hgen
       obtain ⟨⟨⟨hres, hwf⟩, hsn⟩, hrest⟩ := hgen
-      simp only [freshDefs, Bool.and_eq_true, Bool.not_eq_true', List.contains_eq_mem, decide_eq_false_iff_not] at hfr
-      obtain ⟨⟨hnew, hnc⟩, hfrest⟩ := hfr
       have tp := topExpr_g he kp.bi hwf hsn
       have hd := stmt_headG tp.gi.good (notAvail_lt tp.nav) hrs hset hmap
       have hstep : Step (· = r) s t1 := (exprSpec (B := (· = r)) e none (some r) he kp.bi.good
@@ -132,7 +129,7 @@ theorem keptLoop {nIn : Nat} {rets : List String} :
         have bi' := kp.bi.step tp hd hend (fun m hm => by cases hm) hbind hres
         have kp' := kp_step kp tp hd hk bi'
         obtain ⟨N, Gk, σk, scope', hfin, hk', hsub, hmem⟩ :=
-          keptLoop rest (scope ++ [r]) ((r, e.eval (envOf env)) :: env) k5 kp' hrest hfrest hkr
+          keptLoop rest (scope ++ [r]) ((r, e.eval (envOf env)) :: env) k5 kp' hrest hkr
         refine ⟨N, Gk, σk, scope', hfin, hk', fun n hn => hsub n (List.mem_append_left _ hn), fun p hp => ?_⟩
         rcases List.mem_cons.mp hp with rfl | hp
         · exact hsub _ (by simp)
@@ -284,14 +281,14 @@ theorem clean_aux {nIn N : Nat} {Gk Gr G extra : List AGate} {σk σ0 : FState} 
           hunt _ _ q kf.inv (fun g hg e' => by have := hGkN g hg; omega)]
         exact hσ0z q hqge
 
-/-- **cleanliness on the general class**: intermediates first, return bits last, every name defined once, no
-constants, final uncomputation on.  After every successful run of `compile`, on every input: every argument qubit
+/-- **cleanliness on the general class**: intermediates first, every requested return bit defined once, last;
+final uncomputation on.  After every successful run of `compile`, on every input: every argument qubit
 is unchanged, every qubit that is neither an argument nor the qubit of a requested return bit is zero. -/
 theorem compile_general_clean {inputs : List String} {defs : List (String × BExp)} {rets : List String}
     {cs : List Nat} {s : CState}
     (h : (compile inputs defs (some rets) true).run { choices := cs } = .ok ((), s))
     (hnd : inputs.Nodup) (hfresh : ∀ n ∈ inputs, reservedName n = false)
-    (hgen : genDefs inputs defs = true) (hfr : freshDefs inputs defs = true) (hkr : keptThenRet rets defs = true)
+    (hgen : genDefs inputs defs = true) (hkr : keptThenRet rets inputs defs = true)
     (x : List Bool) (hx : x.length = inputs.length) (q : Nat) :
     (q < inputs.length →
       (runClassical s.qc.gates.toList (initState x s.qc.numQubits)).getD q false = x.getD q false) ∧
@@ -320,7 +317,7 @@ theorem compile_general_clean {inputs : List String} {defs : List (String × BEx
   have kp1 : KP inputs.length inputs (envOf (inputs.zip x)) (toF (initState x s.qc.numQubits)) s1 :=
     ⟨bi1, (by rw [hf1]), (by rw [hn1]; exact Nat.le_refl _), (by rw [hg1nil]; trivial),
       (by rw [hg1nil]; intro g hg; cases hg), (by rw [hg1nil]; intro g hg; cases hg)⟩
-  obtain ⟨N, Gk, σk, scope', rp, kf, _, _⟩ := keptLoop defs inputs (inputs.zip x) hdefs kp1 hgen hfr hkr
+  obtain ⟨N, Gk, σk, scope', rp, kf, _, _⟩ := keptLoop defs inputs (inputs.zip x) hdefs kp1 hgen hkr
   obtain ⟨Gr, hG, hGrT⟩ := rp.gates
   have hg2 : Good s2 := rp.bi.good
   have hinv2 : GatesInv s2.qc.gates.toList := good_gatesInv hg2
